@@ -7,7 +7,11 @@ use std::time::Duration;
 
 fn strs(v: &Value) -> Vec<String> {
 	v.as_array()
-		.map(|a| a.iter().filter_map(|x| x.as_str().map(|s| s.to_string())).collect())
+		.map(|a| {
+			a.iter()
+				.filter_map(|x| x.as_str().map(|s| s.to_string()))
+				.collect()
+		})
 		.unwrap_or_default()
 }
 
@@ -74,9 +78,11 @@ pub async fn dump(mel: &MainEventLoop) -> Value {
 	names.sort();
 	for n in names {
 		let e = mel.endpoints[n].read().await;
-		eps.push(json!({"name": e.name, "url": e.url, "tos_agreed": e.tos_agreed,
+		eps.push(
+			json!({"name": e.name, "url": e.url, "tos_agreed": e.tos_agreed,
 			"root_certificates": e.root_certificates,
-			"rate_limits": crate::endpoint::verif::limits_of(&e.rl)}));
+			"rate_limits": crate::endpoint::verif::limits_of(&e.rl)}),
+		);
 	}
 	let mut accs = vec![];
 	let mut names: Vec<&String> = mel.accounts.keys().collect();
